@@ -191,12 +191,32 @@ func c17Run(c c17Case) (nontrivial bool, inconclusive bool, lateness []time.Dura
 			}
 		}
 		mu.Unlock()
-		if pending == 0 || time.Now().After(limit) {
+		if time.Now().After(limit) {
 			break
+		}
+		if pending == 0 {
+			// a task that has just run may be about to register the task it
+			// submits: settle, and look again (a second run of a task would
+			// show up now as well)
+			mu.Lock()
+			n0 := len(tasks)
+			mu.Unlock()
+			time.Sleep(20 * time.Millisecond)
+			mu.Lock()
+			settled := len(tasks) == n0
+			for _, t := range tasks {
+				if !t.far && t.runs.Load() == 0 {
+					settled = false
+				}
+			}
+			mu.Unlock()
+			if settled {
+				break
+			}
+			continue
 		}
 		time.Sleep(2 * time.Millisecond)
 	}
-	time.Sleep(20 * time.Millisecond) // a second run of a task would show up now
 	close(stop)
 	if time.Duration(maxOver.Load()) > 200*time.Millisecond {
 		return false, true, nil, nil
